@@ -295,6 +295,15 @@ class Batch:
             if entry is not None:
                 known_seen.append((entry, res))
                 print(f"KNOWN-FINDING: property={v['prop']} {entry['what']} [{res['count']} runs; e.g. seed {res['seed']}]")
+                # developer tool (never during a registered check): keep one minimised replay per listed finding
+                if os.environ.get("VERIF_WRITE_KNOWN_REPLAYS") == "1" and entry.get("replay"):
+                    dst = VERIF / entry["replay"]
+                    if not dst.exists():
+                        dst.parent.mkdir(parents=True, exist_ok=True)
+                        dst.write_text(json.dumps({
+                            "property": v["prop"], "check": prop, "scenario": list(self.scn_args), "seed": res["seed"],
+                            "program": res["min_program"], "original_ops": _n_ops(res["program"]), "violation": v, "known_finding": entry["what"],
+                        }, indent=1, default=repr))
                 continue
             replay_dir.mkdir(parents=True, exist_ok=True)
             path = replay_dir / f"{res['seed']}-{v['tag']}.json"
